@@ -5,11 +5,11 @@ import Reduino.Lemmas.C01h
 namespace Reduino.Lemmas.C01
 open Reduino.Lang
 
-theorem C_passes_mono {te : C.TyEnv} {f f' : Nat} {b : Stmt} {n : Nat} {st : Py.St} (hle : f ≤ f')
-    (h : C.passes te f b n st ≠ .error .fuel) : C.passes te f' b n st = C.passes te f b n st := by
+theorem C_passes_mono {te : C.TyEnv} {f f' : Nat} {b : Stmt} {n : Nat} {st : Py.St} {m : C.Mode} (hle : f ≤ f')
+    (h : C.passes te f b n st m ≠ .error .fuel) : C.passes te f' b n st m = C.passes te f b n st m := by
   induction hle with
   | refl => rfl
-  | step _ ih => rw [← ih]; exact C_passes_mono1 te _ b n st (by rw [ih]; exact h)
+  | step _ ih => rw [← ih]; exact C_passes_mono1 te _ b n st m (by rw [ih]; exact h)
 
 theorem passes_skip (te : C.TyEnv) (f N : Nat) (st : Py.St) (hfl : st.flow = .normal) :
     C.passes te (f + 1) .skip N st = .ok st := by
@@ -67,9 +67,10 @@ theorem prologue_sim (pre : Stmt) (all : List String) (te : C.TyEnv) (acc : TopA
     rcases hdecl x hx with h | h
     · cases h
     · exact hpreall x h
-  have hnf : ∀ g ∈ acc.globals.reverse, g.2.2.nameFree = true :=
+  have hgood : ∀ g ∈ acc.globals.reverse, GoodInit g.2.2 :=
     fun g hg => hI2 g (List.mem_reverse.1 hg)
-  rcases init_total acc.te acc.globals.reverse [] hnf with ⟨s0, hs0⟩ | hs0
+  have hnf : ∀ g ∈ acc.globals.reverse, g.2.2.nameFree = true := fun g hg => (hgood g hg).1
+  rcases init_total acc.te acc.globals.reverse [] hgood with ⟨s0, hs0⟩ | hs0
   · obtain ⟨hinit, _⟩ := init_spec acc.te acc.globals.reverse [] s0
       (List.pairwise_reverse.2 (hI3.imp fun h => h.symm)) hnf hs0
     obtain ⟨l, hl, hout⟩ := top_sim all acc.te acc.globals.reverse s0 fuel hallf hinit pre {} acc acc.te fuel
@@ -80,7 +81,7 @@ theorem prologue_sim (pre : Stmt) (all : List String) (te : C.TyEnv) (acc : TopA
     rcases hout with ⟨stc0, hc0, hr0, _⟩ | hc0
     · obtain ⟨f1, hf1⟩ := execList_seqOf acc.te fuel l.reverse _ _ hc0 (by intro e; cases e)
       left; exact ⟨s0, stc0, f1, hs0, by rw [hl']; exact hf1, hr0⟩
-    · obtain ⟨f1, hf1⟩ := execList_seqOf acc.te fuel l.reverse _ _ hc0 (by intro e; cases e)
+    · obtain ⟨f1, hf1⟩ := execList_seqOf_ub acc.te fuel l.reverse _ hc0
       right; right; exact ⟨s0, f1, hs0, by rw [hl']; exact hf1⟩
   · right; left; exact hs0
 
